@@ -196,8 +196,12 @@ def execute(plan: dict) -> dict:
                 e0, o0, k0, n0 = seen[key]
                 if (e0, o0) == (ei, oi):
                     where = "within one artifact"
+                elif e0 != ei:
+                    where = "across a restart"
+                elif isinstance(o0, str) or isinstance(oi, str):
+                    where = "across a fork"
                 else:
-                    where = "same process" if e0 == ei else "across a restart"
+                    where = "same process"
                 a, b = sorted([f"{k0}.{n0}", f"{kind}.{name}"])
                 records.append(
                     {
@@ -218,7 +222,7 @@ def execute(plan: dict) -> dict:
         if pv in pairs and pairs[pv] != (ei, oi):
             records.append({"oracle": "shared-key-nonce-pair", "site": f"{kind}.{'+'.join(pair)}", "msg": f"{kind} artifacts {pairs[pv]} and {(ei, oi)} use the same ({', '.join(pair)}) pair"})
         pairs.setdefault(pv, (ei, oi))
-    shape = [[sorted(set(ep["imports"])), [[o["op"], o.get("variant"), o.get("version")] for o in ep["ops"]]] for ep in plan["epochs"]]
+    shape = [[sorted(set(ep["imports"])), [[o["op"], o.get("variant"), o.get("version"), o.get("shared_attr"), o.get("reuse_config"), len(o.get("children", []))] for o in ep["ops"]]] for ep in plan["epochs"]]
     sched = [[ep["imports"], ep.get("clock", "advance")] for ep in plan["epochs"]]
     seen_sites = set()
     out_records = []
@@ -242,11 +246,17 @@ def execute(plan: dict) -> dict:
 
 # ----------------------------------------------------------------------------------------------
 
-NEEDS = {"sb2": "sb2", "mbi_class": "mbi", "mbi_config": "mbi", "otfad": "otfad", "iee": "iee", "bee": "bee", "hab": "hab"}
+NEEDS = {"sb2_config": "sb2", "fork": "sb2", "sb2": "sb2", "mbi_class": "mbi", "mbi_config": "mbi", "otfad": "otfad", "iee": "iee", "bee": "bee", "hab": "hab"}
 
 
-def gen_op(rng: random.Random) -> dict:
-    kind = rng.choice(["sb2"] * 5 + ["mbi_class"] * 2 + ["mbi_config"] * 2 + ["otfad"] * 2 + ["iee"] * 2 + ["bee"] * 3 + ["hab"] * 2)
+def gen_op(rng: random.Random, allow_fork: bool = True) -> dict:
+    kind = rng.choice(["sb2"] * 5 + ["sb2_config"] * 2 + ["mbi_class"] * 2 + ["mbi_config"] * 2 + ["otfad"] * 3 + ["iee"] * 3 + ["bee"] * 4 + ["hab"] * 2 + (["fork"] if allow_fork else []))
+    if kind == "fork":
+        def sub():
+            return [gen_op(rng, allow_fork=False) for _ in range(rng.randint(1, 3))]
+
+        o = {"op": "fork", "dt_us": 0, "children": [sub() for _ in range(rng.choice([1, 2, 2]))], "parent": sub() if rng.random() < 0.6 else []}
+        return o
     o: dict = {"op": kind, "dt_us": rng.choice([0, 0, 1, 1000, 1_500_000])}
     if kind == "sb2":
         o["version"] = rng.choice(["2.0", "2.1", "2.1"])
@@ -260,13 +270,22 @@ def gen_op(rng: random.Random) -> dict:
         o["x"] = rng.randrange(3)
     elif kind == "mbi_config":
         o["export"] = rng.random() < 0.3
+    elif kind == "sb2_config":
+        o["reuse_config"] = rng.random() < 0.6
+        o["export"] = rng.random() < 0.3
     elif kind == "otfad":
         o["export"] = rng.random() < 0.6
+        o["variant"] = rng.choice(["implicit", "implicit", "explicit_key", "explicit_key_ctr", "explicit_key_ctr"])
+        o["x"] = rng.randrange(2)
     elif kind == "iee":
         o["ctr"] = rng.random() < 0.5
         o["big"] = rng.random() < 0.3
+        o["shared_attr"] = rng.random() < 0.5
+        o["variant"] = rng.choice(["implicit", "implicit", "explicit_key1"])
+        o["x"] = rng.randrange(2)
     elif kind == "bee":
-        o["variant"] = rng.choice(["prdb", "kib", "header"])
+        o["variant"] = rng.choice(["prdb", "kib", "header", "kib_explicit_key", "header_explicit_sw_key"])
+        o["x"] = rng.randrange(2)
     elif kind == "hab":
         o["variant"] = rng.choice(["nonce", "dek", "dek"])
         o["ws"] = rng.choice(["ws0", "ws0", "ws0", "ws1"])
@@ -280,7 +299,12 @@ def gen_plan(family: str, i: int, rng: random.Random, tier: str) -> dict:
     for ei in range(rng.choice([1, 1, 2, 2, 3])):
         ops = [gen_op(rng) for _ in range(rng.randint(2, 8))]
         mods = []
+        flat = []
         for o in ops:
+            flat.append(o)
+            if o["op"] == "fork":
+                flat += [so for ch in o["children"] for so in ch] + list(o.get("parent", []))
+        for o in flat:
             if NEEDS[o["op"]] not in mods:
                 mods.append(NEEDS[o["op"]])
         others = [m for m in ("sb2", "mbi", "otfad", "iee", "bee", "hab") if m not in mods]
@@ -302,7 +326,7 @@ def reductions(plan: dict):
     for ei, ep in enumerate(plan["epochs"]):
         if len(ep["ops"]) > 1:
             yield from ddmin_lists(plan, [["epochs", ei, "ops"]])
-        needed = {NEEDS[o["op"]] for o in ep["ops"]}
+        needed = {NEEDS[o["op"]] for o in ep["ops"]} | {NEEDS[so["op"]] for o in ep["ops"] if o["op"] == "fork" for grp in (o["children"] + [o.get("parent", [])]) for so in grp}
         extra = [m for m in ep["imports"] if m not in needed]
         if extra:
             c = copy.deepcopy(plan)
